@@ -146,8 +146,10 @@ def small_limit_dist(chk, case, r, decisions):
     lim = case["max_data"]
     chk.dist("smalllimit.cases")
     over = replies_over(r, lim)
-    if r.refusals or over:
+    if r.refusals or r.terminal_refusals or over:
         chk.dist("smalllimit.hit")
+    for x in r.terminal_refusals:
+        chk.dist("smalllimit.refused_terminal.%s" % (find_state(case["machine"], x["state"]) or {}).get("Type"))
     if over:
         chk.dist("smalllimit.reply_over_limit", over)
     if len(json.dumps(case["input"])) > lim:
